@@ -6,9 +6,102 @@ import Mathlib.Algebra.Order.Field.Rat
 
 namespace DH.Stopper
 
+/-! ### the order of the objectives (`-inf < finite < +inf`) is a linear order -/
+
+namespace ERat
+
+theorem fin_le_fin {a b : Rat} : (fin a ≤ fin b) ↔ a ≤ b := by
+  show leB (fin a) (fin b) = true ↔ a ≤ b
+  simp [leB]
+
+theorem fin_lt_fin {a b : Rat} : (fin a < fin b) ↔ a < b := by
+  show leB (fin b) (fin a) = false ↔ a < b
+  simp [leB]
+
+theorem negInf_le (x : ERat) : negInf ≤ x := by cases x <;> rfl
+theorem le_posInf (x : ERat) : x ≤ posInf := by cases x <;> rfl
+theorem negInf_lt_fin (a : Rat) : negInf < fin a := rfl
+theorem fin_lt_posInf (a : Rat) : fin a < posInf := rfl
+theorem negInf_lt_posInf : negInf < posInf := rfl
+
+protected theorem le_refl' (a : ERat) : a ≤ a := by
+  cases a with
+  | negInf => rfl
+  | posInf => rfl
+  | fin a => exact fin_le_fin.2 (le_refl a)
+
+protected theorem le_trans' {a b c : ERat} (h1 : a ≤ b) (h2 : b ≤ c) : a ≤ c := by
+  cases a <;> cases b <;> cases c <;> first
+    | rfl
+    | exact (Bool.false_ne_true h1).elim
+    | exact (Bool.false_ne_true h2).elim
+    | exact fin_le_fin.2 (le_trans (fin_le_fin.1 h1) (fin_le_fin.1 h2))
+
+protected theorem le_antisymm' {a b : ERat} (h1 : a ≤ b) (h2 : b ≤ a) : a = b := by
+  cases a <;> cases b <;> first
+    | rfl
+    | exact (Bool.false_ne_true h1).elim
+    | exact (Bool.false_ne_true h2).elim
+    | exact congrArg fin (le_antisymm (fin_le_fin.1 h1) (fin_le_fin.1 h2))
+
+protected theorem le_total' (a b : ERat) : a ≤ b ∨ b ≤ a := by
+  cases a <;> cases b <;> first
+    | exact Or.inl rfl
+    | exact Or.inr rfl
+    | exact (le_total _ _).imp fin_le_fin.2 fin_le_fin.2
+
+protected theorem lt_iff' {a b : ERat} : a < b ↔ a ≤ b ∧ ¬ b ≤ a := by
+  have h : (a < b) ↔ ¬ b ≤ a := by
+    show leB b a = false ↔ ¬ leB b a = true
+    simp
+  rw [h]
+  exact ⟨fun hn => ⟨(ERat.le_total' a b).resolve_right hn, hn⟩, fun hh => hh.2⟩
+
+instance : LinearOrder ERat where
+  le := (· ≤ ·)
+  lt := (· < ·)
+  le_refl := ERat.le_refl'
+  le_trans := fun _ _ _ => ERat.le_trans'
+  lt_iff_le_not_ge := fun _ _ => ERat.lt_iff'
+  le_antisymm := fun _ _ => ERat.le_antisymm'
+  le_total := ERat.le_total'
+  toDecidableLE := fun a b => inferInstanceAs (Decidable (leB a b = true))
+
+/-- `x <= x + epsilon` for `epsilon >= 0`, also at the infinities -/
+theorem le_addFin {t q : ERat} {e : Rat} (he : 0 ≤ e) (h : t ≤ q) : t ≤ q.addFin e := by
+  cases q with
+  | negInf => exact h
+  | posInf => exact h
+  | fin q =>
+    cases t with
+    | negInf => exact negInf_le _
+    | posInf => exact (Bool.false_ne_true h).elim
+    | fin t =>
+      have := fin_le_fin.1 h
+      exact fin_le_fin.2 (by show t ≤ q + e; linarith)
+
+/-- the mean of two values that are both `≤ q`, when it is defined, is `≤ q` -/
+theorem mean_le {a b m q : ERat} (h : mean a b = some m) (ha : a ≤ q) (hb : b ≤ q) : m ≤ q := by
+  cases a <;> cases b <;> simp only [mean, Option.some.injEq, reduceCtorEq] at h <;> subst h
+  · exact negInf_le _
+  · exact negInf_le _
+  · exact negInf_le _
+  · cases q with
+    | negInf => exact (Bool.false_ne_true ha).elim
+    | posInf => exact le_posInf _
+    | fin q =>
+      have h1 := fin_le_fin.1 ha
+      have h2 := fin_le_fin.1 hb
+      exact fin_le_fin.2 (by linarith)
+  · exact hb
+  · exact ha
+  · exact ha
+
+end ERat
+
 /-! ### `np.sort`, `a[-k]`, `np.median` -/
 
-theorem insertAsc_perm (x : Rat) : ∀ l : List Rat, (insertAsc x l).Perm (x :: l)
+theorem insertAsc_perm (x : ERat) : ∀ l : List ERat, (insertAsc x l).Perm (x :: l)
   | [] => List.Perm.refl _
   | y :: ys => by
     unfold insertAsc
@@ -16,13 +109,13 @@ theorem insertAsc_perm (x : Rat) : ∀ l : List Rat, (insertAsc x l).Perm (x :: 
     · exact List.Perm.refl _
     · exact ((insertAsc_perm x ys).cons y).trans (List.Perm.swap x y ys)
 
-theorem sortAsc_perm : ∀ l : List Rat, (sortAsc l).Perm l
+theorem sortAsc_perm : ∀ l : List ERat, (sortAsc l).Perm l
   | [] => List.Perm.refl _
   | x :: xs => by
     show (insertAsc x (sortAsc xs)).Perm (x :: xs)
     exact (insertAsc_perm x _).trans ((sortAsc_perm xs).cons x)
 
-theorem insertAsc_sorted (x : Rat) : ∀ l : List Rat, l.Pairwise (fun a b => a ≤ b) →
+theorem insertAsc_sorted (x : ERat) : ∀ l : List ERat, l.Pairwise (fun a b => a ≤ b) →
     (insertAsc x l).Pairwise (fun a b => a ≤ b)
   | [], _ => by simp [insertAsc]
   | y :: ys, h => by
@@ -42,30 +135,30 @@ theorem insertAsc_sorted (x : Rat) : ∀ l : List Rat, l.Pairwise (fun a b => a 
       · exact le_of_lt (lt_of_not_ge hxy)
       · exact hy.1 z hz
 
-theorem sortAsc_sorted : ∀ l : List Rat, (sortAsc l).Pairwise (fun a b => a ≤ b)
+theorem sortAsc_sorted : ∀ l : List ERat, (sortAsc l).Pairwise (fun a b => a ≤ b)
   | [] => List.Pairwise.nil
   | x :: xs => by
     show (insertAsc x (sortAsc xs)).Pairwise _
     exact insertAsc_sorted x _ (sortAsc_sorted xs)
 
-theorem mem_sortAsc {l : List Rat} {x : Rat} : x ∈ sortAsc l ↔ x ∈ l := (sortAsc_perm l).mem_iff
+theorem mem_sortAsc {l : List ERat} {x : ERat} : x ∈ sortAsc l ↔ x ∈ l := (sortAsc_perm l).mem_iff
 
-theorem length_sortAsc (l : List Rat) : (sortAsc l).length = l.length := (sortAsc_perm l).length_eq
+theorem length_sortAsc (l : List ERat) : (sortAsc l).length = l.length := (sortAsc_perm l).length_eq
 
-theorem negIdx_mem {l : List Rat} {k : Nat} {t : Rat} (h : negIdx l k = some t) : t ∈ l := by
+theorem negIdx_mem {l : List ERat} {k : Nat} {t : ERat} (h : negIdx l k = some t) : t ∈ l := by
   unfold negIdx at h
   split at h
   · exact List.mem_of_getElem? h
   · cases h
 
-theorem negIdx_isSome {l : List Rat} {k : Nat} (h1 : 1 ≤ k) (h2 : k ≤ l.length) : ∃ t, negIdx l k = some t := by
+theorem negIdx_isSome {l : List ERat} {k : Nat} (h1 : 1 ≤ k) (h2 : k ≤ l.length) : ∃ t, negIdx l k = some t := by
   unfold negIdx
   rw [if_pos ⟨h1, h2⟩]
   have : l.length - k < l.length := by omega
   exact ⟨l[l.length - k], List.getElem?_eq_getElem this⟩
 
 /-- in a sorted list the element `l[-k]` and everything after it are the `k` largest -/
-theorem topk_count {l : List Rat} (hs : l.Pairwise (fun a b => a ≤ b)) {k : Nat} {t c : Rat}
+theorem topk_count {l : List ERat} (hs : l.Pairwise (fun a b => a ≤ b)) {k : Nat} {t c : ERat}
     (h : negIdx l k = some t) (hc : c < t) : k ≤ l.countP (fun v => decide (c < v)) := by
   unfold negIdx at h
   split at h
@@ -99,7 +192,7 @@ theorem topk_count {l : List Rat} (hs : l.Pairwise (fun a b => a ≤ b)) {k : Na
     omega
   · cases h
 
-theorem medianSorted_le {l : List Rat} {m q : Rat} (h : medianSorted l = some m) (hall : ∀ x ∈ l, x ≤ q) : m ≤ q := by
+theorem medianSorted_le {l : List ERat} {m q : ERat} (h : medianSorted l = some m) (hall : ∀ x ∈ l, x ≤ q) : m ≤ q := by
   unfold medianSorted at h
   simp only at h
   split at h
@@ -108,30 +201,45 @@ theorem medianSorted_le {l : List Rat} {m q : Rat} (h : medianSorted l = some m)
     · exact hall m (List.mem_of_getElem? h)
     · split at h
       · rename_i a b ha hb
-        have h1 := hall a (List.mem_of_getElem? ha)
-        have h2 := hall b (List.mem_of_getElem? hb)
-        have : m = (a + b) / 2 := (Option.some.inj h).symm
-        rw [this]; linarith
+        exact ERat.mean_le h (hall a (List.mem_of_getElem? ha)) (hall b (List.mem_of_getElem? hb))
       · cases h
 
-theorem medianSorted_isSome {l : List Rat} (h : l ≠ []) : ∃ m, medianSorted l = some m := by
+theorem lowerMiddle_mem {l : List ERat} {m : ERat} (h : lowerMiddle l = some m) : m ∈ l := by
+  unfold lowerMiddle at h
+  split at h
+  · cases h
+  · exact List.mem_of_getElem? h
+
+theorem lowerMiddle_isSome {l : List ERat} (h : l ≠ []) : ∃ m, lowerMiddle l = some m := by
   have hpos : 0 < l.length := List.length_pos_iff.2 h
-  unfold medianSorted
-  simp only
+  unfold lowerMiddle
   rw [if_neg (by omega)]
-  by_cases hodd : l.length % 2 = 1
-  · rw [if_pos hodd]
-    have : l.length / 2 < l.length := by omega
-    exact ⟨l[l.length / 2], List.getElem?_eq_getElem this⟩
-  · rw [if_neg hodd]
-    have h1 : l.length / 2 - 1 < l.length := by omega
-    have h2 : l.length / 2 < l.length := by omega
-    rw [List.getElem?_eq_getElem h1, List.getElem?_eq_getElem h2]
-    exact ⟨_, rfl⟩
+  have : (l.length - 1) / 2 < l.length := by omega
+  exact ⟨l[(l.length - 1) / 2], List.getElem?_eq_getElem this⟩
+
+/-- after the fix the median rule always has a threshold when there is a competitor … -/
+theorem medianThreshold_isSome {l : List ERat} (h : l ≠ []) : ∃ m, medianThreshold l = some m := by
+  unfold medianThreshold
+  cases hm : medianSorted l with
+  | some m => exact ⟨m, rfl⟩
+  | none => exact lowerMiddle_isSome h
+
+/-- … and that threshold is at most the best competitor -/
+theorem medianThreshold_le {l : List ERat} {m q : ERat} (h : medianThreshold l = some m) (hall : ∀ x ∈ l, x ≤ q) :
+    m ≤ q := by
+  unfold medianThreshold at h
+  cases hm : medianSorted l with
+  | some m' =>
+    rw [hm] at h
+    cases h
+    exact medianSorted_le hm hall
+  | none =>
+    rw [hm] at h
+    exact hall m (lowerMiddle_mem h)
 
 /-! ### who the competitors are -/
 
-theorem mem_competitors {s : Sys} {r : Nat} {q : Rat} :
+theorem mem_competitors {s : Sys} {r : Nat} {q : ERat} :
     q ∈ competitors s r ↔ ∃ (i : Nat) (x : JobRec), s[i]? = some x ∧ mget (.rung r) x.md = some (.obj (.num q)) := by
   unfold competitors numbers loadAll
   constructor
@@ -154,7 +262,7 @@ theorem mem_competitors {s : Sys} {r : Nat} {q : Rat} :
 /-- At a decision budget of job `j` (its `n+1`-th observation, objective `q`, already recorded in `jr2`),
 every number stored under its current rung was observed at that same budget; if `q` is at least as good as
 the objective every other job observed there, it is at least as good as every competitor. -/
-theorem competitors_le {P : Params} (hv : RungValid P) {s : Sys} {j : Nat} {jr jr2 : JobRec} {q : Rat}
+theorem competitors_le {P : Params} (hv : RungValid P) {s : Sys} {j : Nat} {jr jr2 : JobRec} {q : ERat}
     (hinv : ∀ (i : Nat) (x : JobRec), s[i]? = some x → JInv P x)
     (hj : s[j]? = some jr)
     (hdec : jr.js.objs.length + 1 = decBudget P jr.js.rung)
@@ -188,15 +296,15 @@ theorem competitors_le {P : Params} (hv : RungValid P) {s : Sys} {j : Nat} {jr j
 
 /-! ### a step of a running job with a numeric objective, below `max_steps` -/
 
-theorem jobStep_num {P : Params} (hv : RungValid P) (s : Sys) (j : Nat) (jr : JobRec) (q : Rat)
+theorem jobStep_num {P : Params} (hv : RungValid P) (s : Sys) (j : Nat) (jr : JobRec) (q : ERat)
     (hlive : Live P jr) (hmax : jr.js.objs.length + 1 < P.maxSteps) :
     ∃ jr2, jr2.js.rung = jr.js.rung ∧ jr2.halted = jr.halted ∧
       (decTest P jr.js.rung (jr.js.objs.length + 1) = true →
         mget (.rung jr.js.rung) jr2.md = some (.obj (.num q))) ∧
       jobStep P s j jr (.num q) =
-        (haltIf (decide' false P (s.set j jr2) jr2 (jr.js.objs.length + 1) q).1
-            (decide' false P (s.set j jr2) jr2 (jr.js.objs.length + 1) q).2,
-          (decide' false P (s.set j jr2) jr2 (jr.js.objs.length + 1) q).2) := by
+        (haltIf (decide' .fixed P (s.set j jr2) jr2 (jr.js.objs.length + 1) q).1
+            (decide' .fixed P (s.set j jr2) jr2 (jr.js.objs.length + 1) q).2,
+          (decide' .fixed P (s.set j jr2) jr2 (jr.js.objs.length + 1) q).2) := by
   have hlen : jr.js.budgets.length = jr.js.objs.length := by rw [hlive.budgets]; simp
   obtain ⟨jr1, hobs, O⟩ := observeRec_spec hv jr (jr.js.budgets.length + 1) (.num q)
   have ho1 : jr1.js.objs.getLast? = some (.num q) := by rw [O.objs]; simp
